@@ -108,6 +108,10 @@ func (g *gen) newImage(subject int, shareFrom int) int {
 			o.Layers = append(o.Layers, g.p.Objs[shareFrom].Layers[0])
 		} else {
 			o.Layers = append(o.Layers, g.newBlob(g.r.between(0, 400)))
+			if g.r.chance(12) {
+				// layers "not to be distributed" are pushed and have to be kept like any other once they are in the repository
+				g.p.Objs[o.Layers[len(o.Layers)-1]].DescMT = g.r.str("application/vnd.oci.image.layer.nondistributable.v1.tar+gzip", "application/vnd.docker.image.rootfs.foreign.diff.tar.gzip", "application/vnd.oci.image.layer.nondistributable.v1.tar")
+			}
 		}
 	}
 	switch g.r.intn(6) {
@@ -680,6 +684,7 @@ func planC03(prop string, seed uint64, tier string, idx int) *Plan {
 	g.storeKnob("dir", "mem", "dir")
 	var imgs []int
 	ni := g.r.between(2, 4)
+	gcTags := false
 	if idx%3 == 0 {
 		// few tags on few manifests in one repository: the same index entries are retagged, untagged, removed and re-added
 		// over and over (entry order and leftovers of earlier operations matter)
@@ -687,6 +692,13 @@ func planC03(prop string, seed uint64, tier string, idx int) *Plan {
 		g.repos(1)
 		g.tagPool = []string{"t", "t0", "tx"}
 		ni = 2
+		if idx%9 == 3 {
+			// … with untagged manifests collected at once: an entry that has a tag is never one of them, whatever other
+			// entries of the same digest look like
+			g.p.Profile += " + collection of untagged manifests"
+			gcTags = true
+			g.p.Knobs.Untagged, g.p.Knobs.GCGraceMs, g.p.Knobs.GCFreqMs = 1, -1, -1
+		}
 	}
 	for i := 0; i < ni; i++ {
 		share := -1
@@ -698,6 +710,22 @@ func planC03(prop string, seed uint64, tier string, idx int) *Plan {
 	if g.r.chance(50) {
 		// an index over manifests that may already carry tags of their own
 		imgs = append(imgs, g.newIndex([]int{imgs[0], imgs[1]}, -1))
+	}
+	if gcTags && g.r.chance(60) {
+		// leftovers: a manifest that carried two tags and lost one keeps an untagged entry next to the tagged one, and the
+		// removal of an earlier entry changes their order
+		a, b := imgs[g.r.intn(2)], imgs[g.r.intn(2)]
+		t := g.r.perm(3)
+		g.pushManifest(0, a, g.tagPool[t[0]], false)
+		g.pushManifest(0, b, g.tagPool[t[1]], false)
+		g.pushManifest(0, b, g.tagPool[t[2]], false)
+		g.add(Op{K: "del", Mode: "tag", Repo: 0, Tag: g.tagPool[t[g.r.pick(1, 2)]]})
+		if a != b && g.r.chance(70) {
+			g.add(Op{K: "del", Mode: "man", Repo: 0, Obj: a, Algo: g.p.Objs[a].RefAlgo})
+			delete(g.mansIn[0], a)
+		}
+		g.add(Op{K: "gc", Repo: 0})
+		g.add(g.tagsOp(0))
 	}
 	n := g.scale(g.r.between(6, 22))
 	for i := 0; i < n; i++ {
@@ -718,6 +746,9 @@ func planC03(prop string, seed uint64, tier string, idx int) *Plan {
 				g.add(Op{K: "del", Mode: "man", Repo: repo, Obj: m, Algo: g.p.Objs[m].RefAlgo})
 			}
 		case 9, 10, 11:
+			if gcTags && g.r.chance(50) {
+				g.add(Op{K: "gc", Repo: g.r.pick(-1, repo)})
+			}
 			g.add(g.tagsOp(repo))
 		case 12:
 			g.add(Op{K: "get", Mode: "tag", Repo: repo, Tag: g.anyTag(repo), Accept: "all", Head: g.r.chance(30)})
@@ -1129,4 +1160,17 @@ func (g *gen) sleepAround(grace int64) int64 {
 		return int64(g.r.pick(10, 1000, 100000))
 	}
 	return grace * int64(g.r.pick(1, 5, 9, 11, 15, 21, 25, 40)) / 10
+}
+
+// perm returns a random permutation of 0..n-1.
+func (r *rng) perm(n int) []int {
+	p := make([]int, n)
+	for i := range p {
+		p[i] = i
+	}
+	for i := n - 1; i > 0; i-- {
+		j := r.intn(i + 1)
+		p[i], p[j] = p[j], p[i]
+	}
+	return p
 }
